@@ -55,3 +55,16 @@ pub fn search() -> String {
     }
     "{\"found\":false,\"searched\":\"integer boundary values, text/blob lengths at width boundaries, all byte strings of length <= 2 and 2k three/eleven-byte frames\"}".to_string()
 }
+
+
+/// replay of a Kani counterexample of the width rule on the REAL pack_columns: the length nibble written for Integer(v)
+pub fn run(args: &[String]) -> String {
+    let v: i64 = match args.get(0).and_then(|a| a.parse::<i64>().ok()) { Some(v) => v, None => return "{\"found\":null,\"error\":\"expected one i64\"}".to_string() };
+    let packed = match klukai_types::pubsub::pack_columns(&[klukai_types::api::SqliteValue::Integer(v)]) { Ok(p) => p, Err(e) => return format!("{{\"found\":true,\"input\":\"pack_columns([Integer({})])\",\"observed\":\"Err({})\",\"expected\":\"Ok\"}}", v, e) };
+    let width = if packed.len() >= 2 { (packed[1] >> 3) as u32 } else { 255 };
+    let u = v as u64;
+    let expected: u32 = if u == 0 { 0 } else { (64 - u.leading_zeros() + 7) / 8 };
+    let hexs: String = packed.iter().map(|b| format!("{:02x}", b)).collect();
+    format!("{{\"found\":{},\"input\":\"pack_columns([Integer({})])\",\"observed\":\"0x{} (integer written with {} bytes)\",\"expected\":\"{} bytes: the extension's minimal big-endian width of the value seen as u64\"}}",
+            width != expected, v, hexs, width, expected)
+}
